@@ -168,6 +168,41 @@ pub fn check_case(ctx: &Ctx, st: &mut Stats, tcs: &[String], s: Settings) {
     }
 }
 
+/// The escaping setter called twice with different arguments: the last call decides, exactly as if
+/// only that call had been made.
+fn setter_history(st: &mut Stats, tcs: &[String], other: u32) {
+    use grex::RegExpBuilder;
+    for (first, last) in [(true, false), (false, true)] {
+        st.evaluations += 1;
+        let want = build(tcs, Settings::new(other | ESC | if last { SURR } else { 0 }));
+        let got = std::panic::catch_unwind(std::panic::AssertUnwindSafe(|| {
+            let mut b = RegExpBuilder::from(tcs);
+            Settings::new(other & !(ESC | SURR)).apply(&mut b);
+            b.with_escaping_of_non_ascii_chars(first);
+            let _ = b.clone().build();
+            b.with_escaping_of_non_ascii_chars(last);
+            b.build()
+        }));
+        match (want, got) {
+            (Ok(w), Ok(g)) => {
+                st.decided += 1;
+                st.count("escape_setter_histories");
+                if w != g {
+                    let mut case = case_json(tcs, Settings::new(other | ESC | if last { SURR } else { 0 }));
+                    case["what"] = json!("setter_history");
+                    case["history"] = json!([first, last]);
+                    st.violation(
+                        "escape_setter_history",
+                        format!("with_escaping_of_non_ascii_chars({first}) then ({last}) gives {:?}, a single call with {last} gives {:?}", g, w),
+                        case,
+                    );
+                }
+            }
+            _ => st.inconclusive("panic in setter history (C07's concern)"),
+        }
+    }
+}
+
 pub fn replay(ctx: &Ctx, case: &serde_json::Value) {
     let (tcs, s) = case_from_json(case);
     let mut st = Stats::new();
@@ -264,6 +299,9 @@ pub fn run(ctx: &Ctx) -> i32 {
         }
         st.count(&format!("random_{name}"));
         check_case(ctx, st, &tcs, s);
+        if i % 8 == 0 {
+            setter_history(st, &tcs, s.flags & (REP | VERB | CAP));
+        }
     });
     // sweep of every non-ASCII scalar in both modes
     let stride = if ctx.thorough { 1 } else { 17 };
